@@ -10,6 +10,7 @@ mod calib;
 mod common;
 mod libcall;
 mod props;
+mod spy;
 
 use std::path::PathBuf;
 use std::time::Instant;
@@ -33,6 +34,7 @@ fn main() {
     let mut replay: Option<PathBuf> = None;
     let mut threads = std::thread::available_parallelism().map(|n| n.get()).unwrap_or(4);
     let mut extra: Vec<String> = Vec::new();
+    let mut shard = (0usize, 1usize);
     let mut i = 2;
     while i < args.len() {
         match args[i].as_str() {
@@ -50,6 +52,11 @@ fn main() {
             }
             "--replay" => {
                 replay = Some(PathBuf::from(&args[i + 1]));
+                i += 1;
+            }
+            "--shard" => {
+                let mut it = args[i + 1].split('/');
+                shard = (it.next().unwrap().parse().expect("shard"), it.next().unwrap().parse().expect("shards"));
                 i += 1;
             }
             "--threads" => {
@@ -72,7 +79,11 @@ fn main() {
         ref_tool: PathBuf::from(format!("{verif_root}/ref/hash-sigs-demo")),
         replay,
         scale,
+        miri: cfg!(miri) || std::env::var("VERIF_MIRI").is_ok(),
+        shard: shard.0,
+        shards: shard.1.max(1),
     };
+    common::set_miri_mode(ctx.miri);
     libcall::install_panic_hook();
 
     let t0 = Instant::now();
@@ -98,6 +109,8 @@ fn main() {
         .with("tier", J::s(if ctx.quick() { "quick" } else { "thorough" }))
         .with("seed", J::Int(seed as i128))
         .with("hooks", J::Bool(cfg!(feature = "hooks")))
+        .with("miri", J::Bool(ctx.miri))
+        .with("shard", J::s(&format!("{}/{}", ctx.shard, ctx.shards)))
         .with("wall_s", J::Num(t0.elapsed().as_secs_f64()));
     let text = doc.to_string();
     match out {
